@@ -2,6 +2,8 @@ package vlib
 
 import (
 	"fmt"
+	"sort"
+	"strings"
 	"sync"
 	"time"
 
@@ -112,7 +114,14 @@ func (c *Check) BFS(name string, nEvents func(hist []int) int, maxDepth int, dea
 	c.Count("evaluations", st.Transitions)
 	c.Count("distinct", st.States)
 	c.Exhaustive(st.Capped == "" && (st.Complete || st.DepthCompleted == maxDepth))
-	c.Sub(name, map[string]any{"engine": "E2 explicit-state BFS on the real object", "states": st.States, "transitions": st.Transitions,
+	var keys []string
+	for k := range seen {
+		if len(keys) < 80 && !strings.HasPrefix(k, "noop") {
+			keys = append(keys, k)
+		}
+	}
+	sort.Strings(keys)
+	c.Sub(name, map[string]any{"engine": "E2 explicit-state BFS on the real object", "states": st.States, "transitions": st.Transitions, "state_keys_head": keys,
 		"depth_completed": st.DepthCompleted, "depth_requested": maxDepth, "state_space_closed": st.Complete, "capped": st.Capped})
 	return st
 }
